@@ -605,7 +605,8 @@ def check_inheritance(fail, truth: Truth, stubs: Stubs, safe, excluded):
             if k > 1 and n not in expected and n in {f["name"] for a in order for f in a["methods"]}:
                 fail("C17", f"class {q}: member {n!r} appears {k} times although the class defines it itself", decl=q, member=n,
                      private_diamond=diamond, path=path)
-        want_supers = [conv(bn, safe, True) for (bn, bq) in c["bases"] if not bn.startswith("_")]
+        # `object`, the implicit base of every class, is no superclass of the stub
+        want_supers = [conv(bn, safe, True) for (bn, bq) in c["bases"] if not bn.startswith("_") and bq != "builtins.object"]
         got_supers = [stubparse.render_type(s_).split(".")[-1].strip("`") for s_ in decl.supers]
         if c.get("extras", {}).get("seq_base"):
             continue
